@@ -606,7 +606,16 @@ def check_record(ctx: Ctx, f: FuncInfo, kind: str, direction: str) -> None:
     env = flow_env(f, lp)
     it = unparse(lp.iter)
     want_it = f"enumerate({self_n})" if direction == "ltr" else f"enumerate(reversed({self_n}))"
-    if it != want_it:
+    # recognised scan sources: (scan direction, value of the first loop variable at scan step I)
+    n_names = [k for k, v in env.items() if unparse(v) == f"len({self_n})"] + [f"len({self_n})"]
+    sources = {f"enumerate({self_n})": ("ltr", I), f"enumerate(reversed({self_n}))": ("rtl", I)}
+    for nn in n_names:
+        sources[f"zip(range({nn}), {self_n})"] = ("ltr", I)
+        sources[f"zip(range({nn} - 1, -1, -1), reversed({self_n}))"] = ("rtl", NM1 - I)
+    if it not in sources or not (isinstance(lp.target, ast.Tuple) and len(lp.target.elts) == 2):
+        raise AnalysisError(f"{f.where}: scan source `{it}` not recognised")
+    got_dir, first_var_poly = sources[it]
+    if got_dir != direction:
         ctx.violation("C11-RS", f, lp, f"{f.name} scans `{it}`; {'left-to-right' if direction == 'ltr' else 'right-to-left'} records need `{want_it}`")
         return
     idx, val = [unparse(e) for e in lp.target.elts]
@@ -641,7 +650,7 @@ def check_record(ctx: Ctx, f: FuncInfo, kind: str, direction: str) -> None:
     if len(rep) != 1:
         raise AnalysisError(f"{f.where}: reported position not recognised")
     pos = rep[0].value if isinstance(rep[0], ast.Yield) else rep[0].args[0]
-    penv = {idx: I}
+    penv = {idx: first_var_poly}
     for k, v in env.items():
         if unparse(v) == f"len({self_n})":
             penv[k] = N
